@@ -43,6 +43,8 @@ Record env := mkEnv {
   e_jpending : gset positive;       (* PodGroup phase Pending: job.IsPending() *)
   e_critical : gset positive;       (* tasks: system-cluster/node-critical class or namespace kube-system *)
   e_queues : gmap positive qx;
+  e_faults : list (positive * positive);   (* (task, node): an allocate event handler reports Event.Err
+                                              when this task is placed on this node (Statement.Pipeline fails) *)
 }.
 
 Inductive akind := AInter | AIntra | AReclaim.
@@ -252,6 +254,11 @@ Definition V_OVERUSED := 10.
 Definition V_NOT_PREEMPTIVE := 11.
 Definition V_NO_CANDS := 12.      (* reclaim skips a node without reclaimees *)
 
+(* the fault script as the session's handler sees it at the next allocate callback of [tid] on [nid] *)
+Definition set_fault (s : sess) (tid nid : positive) : sess :=
+  upd_faults s (if bool_decide ((tid, nid) ∈ e_faults E) then {[tid]} else ∅)
+             (refuse_bind s) (refuse_evict s) (job_ready s).
+
 Definition fits_node (s : sess) (p : task) (nid : positive) : bool :=
   match nodes s !! nid with
   | Some n => less_equal eps (t_init p) (future_idle n) DZero
@@ -323,7 +330,9 @@ Definition run_attempt (k : akind) (s : sess) (p : task) (pq : positive) (a : at
         (s1, done, preemptor_fits s1 pq p (at_node a), v) in
     if negb (v =? V_OK) then (stmt_discard eps s1 nsid, false, v, []) else
     if fits then
-      let '(s2, r) := stmt_pipeline eps s1 nsid (t_id p) (at_node a) in
+      (* Statement.Pipeline fails when a handler reports Event.Err (rolled back by Pipeline itself);
+         preempt.go 405-411 / reclaim.go 261-266 then discard the node statement *)
+      let '(s2, r) := stmt_pipeline eps (set_fault s1 (t_id p) (at_node a)) nsid (t_id p) (at_node a) in
       match r with
       | ROk => (stmt_merge s2 jsid nsid, true, V_OK,
                 [mkRec k s p pq (at_node a) cands done true])
